@@ -68,6 +68,9 @@ Section Cli.
   Definition default_log : bytes := b "log.yaml".
   Definition default_fmt : bytes := b "2006/01/02".
   Definition default_depth : Z := 10.
+  (** the null device: what --no-database makes the book (fix F24: an EMPTY name is a file that cannot be opened, like any other
+      name the file system does not know; before, the empty name stood for "nothing to read", for the log as well) *)
+  Definition dev_null : bytes := b "/dev/null".
 
   Definition first_some {A} (l : list (option A)) : option A :=
     fold_right (fun x acc => match x with Some _ => x | None => acc end) None l.
@@ -77,7 +80,7 @@ Section Cli.
   Definition is_set {A} (f e : option A) : bool := match first_some [f; e] with Some _ => true | None => false end.
 
   Record options := {
-    op_db : bytes;               (* [] = no database *)
+    op_db : bytes;               (* /dev/null = no database *)
     op_log : bytes;
     op_fmt : bytes;
     op_depth : Z;
@@ -160,7 +163,7 @@ Section Cli.
     match load_config w i with
     | inl e => inl e
     | inr cfg =>
-        let dbf := if i_no_database i then [] else pick_string (i_f_db i) (i_e_db i) (ce_db cfg) default_db in
+        let dbf := if i_no_database i then dev_null else pick_string (i_f_db i) (i_e_db i) (ce_db cfg) default_db in
         let logf := pick_string (i_f_log i) (i_e_log i) (ce_log cfg) default_log in
         let fmt := pick_string (i_f_fmt i) (i_e_fmt i) (ce_fmt cfg) default_fmt in
         match tokenize fmt with
@@ -169,7 +172,7 @@ Section Cli.
             let now_r : cerr + time :=
               match i_f_today i with
               | Some s => match parse_date toks s with Some c => inr (time_of_civil c) | None => inl EBadDate end
-              | None => inr (or_default (ce_now cfg) (w_clock w))
+              | None => inr (time_of_civil (civ (or_default (ce_now cfg) (w_clock w))))     (* the calendar day of the clock / of the configured Now in its own zone (fix F25) *)
               end in
             match now_r with
             | inl e => inl e
@@ -212,25 +215,26 @@ Section Cli.
     && match et with Some x => is_good_date t x false | None => true end.
 
   (** *** files *)
-  Inductive opened := ONone (* empty name: nothing to read *) | OData (data : bytes) (f : read_fault) | ODir.
+  Inductive opened := OData (data : bytes) (f : read_fault) | ODir.
 
   Definition open_file (w : world) (p : bytes) : option opened :=
-    match p with
-    | [] => Some ONone
-    | _ =>
+    if beq p dev_null then Some (OData [] NoFault)
+    else
+      match p with
+      | [] => None
+      | _ =>
         match lookup_fs w p with
         | None => None
         | Some FDir => Some ODir
         | Some (FFile d) => Some (OData d (match lookup p (w_read_fault w) with Some k => FailAt k | None => NoFault end))
         | Some (FConfig _) => Some (OData [] NoFault)
         end
-    end.
+      end.
 
   (** ParseStreamCallback on an opened file: a directory opens but every read fails *)
   Definition parse_opened {S} (cb : S -> event NM -> S * bool * option cerr) (o : opened) (s : S) : S * option cerr :=
     let '(s', r) :=
       match o with
-      | ONone => parse_stream NM cb [] NoFault s
       | OData d f => parse_stream NM cb d f s
       | ODir => parse_stream NM cb [] (FailAt 0) s
       end in
@@ -449,7 +453,7 @@ Section Cli.
     let wr := new_writer w in
     let toks := rc_date (op_rc op) in
     match open_file w (op_log op) with
-    | None | Some ONone => finish wr (Failed EOpen)
+    | None => finish wr (Failed EOpen)
     | Some olog =>
         (* the first record is remembered with a flag of its own (fix 412404b: the zero time 0001/01/01 is a date a log may hold) *)
         let '((count_log, first_opt, last), e1) :=
@@ -462,7 +466,7 @@ Section Cli.
                               | Some c =>
                                   let t := time_of_civil c in
                                   ((S cnt, match first with Some _ => first | None => Some t end, t), false, None)
-                              | None => ((S cnt, first, zero_time), false, None)
+                              | None => (st, true, Some EBadDate)      (* a heading that is not a date is an error here as everywhere (fix F27) *)
                               end
                           end) olog (O, None, zero_time) in
         let first := match first_opt with Some t => t | None => zero_time end in
@@ -470,20 +474,16 @@ Section Cli.
         | Some e => finish wr (Failed e)
         | None =>
             let count_db_r : cerr + nat :=
-              match op_db op with
-              | [] => inr O
-              | _ =>
-                  match open_file w (op_db op) with
-                  | None | Some ONone => inl EOpen
-                  | Some odb =>
-                      match parse_opened (fun (c : nat) ev =>
-                                            match ev with
-                                            | EErr e => (c, true, Some (EParse (perr_message e)))
-                                            | ENode _ => (S c, false, None)
-                                            end) odb O with
-                      | (_, Some e) => inl e
-                      | (c, None) => inr c
-                      end
+              match open_file w (op_db op) with
+              | None => inl EOpen
+              | Some odb =>
+                  match parse_opened (fun (c : nat) ev =>
+                                        match ev with
+                                        | EErr e => (c, true, Some (EParse (perr_message e)))
+                                        | ENode _ => (S c, false, None)
+                                        end) odb O with
+                  | (_, Some e) => inl e
+                  | (c, None) => inr c
                   end
               end in
             match count_db_r with
